@@ -20,7 +20,7 @@
 #define MAXR 8
 #define MAXU 4
 
-static int nreaders = 2, nupdaters = 1, rops = 30, uops = 3, use_sig, churn = 1, park, oneshot;
+static int nreaders = 2, nupdaters = 1, rops = 30, uops = 3, use_sig, churn = 1, park, oneshot, parklen;
 
 /* litmus data: plain memory, accessed only through these logged helpers */
 static volatile long X[MAXU], Y[MAXU];
@@ -156,7 +156,9 @@ static void *reader(void *arg)
 			do_unlock(r);
 		} else if (depth[r] > 0 && park && c < 74) {
 			/* stay inside the section long enough for the updater to go from spinning to sleeping */
-			vrt_sleep(300 + vrt_rand() % 1500);
+			/* --parklen N: long enough for merged synchronize_rcu() callers to exhaust URCU_WAIT_ATTEMPTS and sleep on
+			 * their wait node as well */
+			vrt_sleep(parklen ? (unsigned long)parklen + vrt_rand() % 1500 : 300 + vrt_rand() % 1500);
 		} else if (depth[r] > 0) {
 			int u = vrt_rand() % nupdaters;
 			/* read Y then X, or X then Y */
@@ -227,6 +229,7 @@ int main(int argc, char **argv)
 		else if (!strcmp(argv[i], "--sig")) use_sig = 1;
 		else if (!strcmp(argv[i], "--nochurn")) churn = 0;
 		else if (!strcmp(argv[i], "--park")) park = 1;
+		else if (!strcmp(argv[i], "--parklen") && i + 1 < argc) { park = 1; parklen = atoi(argv[++i]); }
 		else if (!strcmp(argv[i], "--oneshot")) oneshot = 1;
 		else if (!strcmp(argv[i], "--oneshot-sweep")) oneshot = 2;
 	}
